@@ -101,6 +101,21 @@ def traverse (p : Params) : List (Option Coord) :=
 def Params.stepsPositive (p : Params) : Bool :=
   p.ifmUblockDepth > 0 && p.ofmUblockDepth > 0 && p.ofmBlockDepth > 0 && p.decompH > 0 && p.decompW > 0
 
+/-- a valid depth-first (not depthwise) configuration: positive steps, block depths that are whole numbers of
+    micro-blocks — the hypotheses under which the traversal is proved to be a bijection plus padding -/
+structure ValidDepthFirst (p : Params) : Prop where
+  notDepthwise : p.isDepthwise = false
+  notPartkernel : p.isPartkernel = false
+  iuPos : 0 < p.ifmUblockDepth
+  ouPos : 0 < p.ofmUblockDepth
+  obdPos : 0 < p.ofmBlockDepth
+  dhPos : 0 < p.decompH
+  dwPos : 0 < p.decompW
+  /-- the OFM block depth is a whole number of OFM micro-blocks -/
+  ouDvd : p.ofmUblockDepth ∣ p.ofmBlockDepth
+  /-- the IFM block depth (16 or 32) is a whole number of IFM micro-blocks -/
+  iuDvd : p.ifmUblockDepth ∣ p.ifmBlockDepth
+
 /-- `reorder(...)`: the emitted coordinate list; `none` when a loop step is 0 -/
 def reorder (p : Params) : Option (List (Option Coord)) :=
   if p.stepsPositive then some (traverse p) else none
